@@ -18,6 +18,18 @@ R1  validate-before-mutate in TrajectoryStore.add (T-ORDER + effects, decided
     display, element k of a saved display (`saved[k]`) or field f of a saved
     record (`plan.f`, the record built once by a constructor call), restored
     in the handler or in a helper that is handed the copy / the record.
+    A block guarded by a context manager of the repository is such a handler
+    too: `with K(self, ..) as v:` (or `p = K(self); with p:`) with K a class
+    whose constructor / __enter__ keep the store and copies of its attributes
+    in fields, and whose __exit__ - under no other condition than "the block
+    raised" - puts those fields back (or removes the inserted key) and does
+    not swallow the exception; or `with self.m(..) as v:` with m a
+    contextlib.contextmanager generator whose single `yield` is the body of a
+    try with one catch-all, re-raising handler that restores from locals bound
+    before the `yield`.  The restores are applied on every exceptional edge
+    that leaves the block; the copies count as saved where the with statement
+    is entered.  An __exit__ that may swallow, restores under another
+    condition or delegates the rollback is undecided, never a pass.
 R1b a rejection that judges the trajectory's own data (a missing required
     value: a raise control-dependent on `<field>.required` and a None test) is
     reachable in the write path after earlier fields of the same record were
@@ -48,8 +60,9 @@ R2  validate-before-mutate in merge: no `raise` of merge, or of a validation
     reads it) is executed on every path before every effect and nothing in
     between stores to what the getter reads.
 R3  the metadata file (the write-mode open / write_text of the `*.json` that
-    readers require; the file name followed through constants, locals and
-    accessor properties of repository classes) is written last: at every level
+    readers require; the file name followed through constants, locals,
+    accessor properties / methods and class-level constants of repository
+    classes) is written last: at every level
     of the call chain from merge to the function that opens it, every other
     file-system effect precedes the step that writes it and none follows; no
     handler - in merge or inside a callee that runs before the write - catches
@@ -304,6 +317,371 @@ def _is_required_value_rejection(rd: dict) -> bool:
 
 
 # ------------------------------------------------------------------------------------------------------------------
+# context managers that hold the rollback state of the block they guard
+# ------------------------------------------------------------------------------------------------------------------
+
+class _ToCaller(ast.NodeTransformer):
+    """an expression / statement of a method of a context-manager object, rewritten into the terms of the function
+    that runs `with K(args) as v`: a parameter of the constructor is the argument it was given, an attribute of the
+    object that merely names another object (`self._store = store`) is that object, any other attribute of the object
+    is `<obj>.<field>` (its value is whatever the constructor / __enter__ put there).  `ok` turns False when a name is
+    met whose value the caller cannot see."""
+
+    def __init__(self, selfname, env, alias, obj, loc=None, saved=()):
+        self.selfname, self.env, self.alias, self.obj, self.loc, self.ok = selfname, env, alias, obj, loc, True
+        self.saved = set(saved)      # locals of a generator-based manager that live as long as the block: `<obj>.<name>`
+
+    def visit_Attribute(self, x):
+        if isinstance(x.value, ast.Name) and x.value.id == self.selfname:
+            if x.attr in self.alias:
+                return ast.Name(id=self.alias[x.attr], ctx=ast.Load())
+            return ast.Attribute(value=ast.Name(id=self.obj, ctx=ast.Load()), attr=x.attr, ctx=x.ctx)
+        return self.generic_visit(x)
+
+    def visit_Name(self, x):
+        import copy
+        if x.id == self.selfname:
+            return ast.Name(id=self.obj, ctx=x.ctx)
+        if x.id in self.saved:
+            return ast.Attribute(value=ast.Name(id=self.obj, ctx=ast.Load()), attr=x.id, ctx=ast.Load())
+        if x.id in self.env:
+            return copy.deepcopy(self.env[x.id])
+        if self.loc is not None and isinstance(x.ctx, ast.Load):
+            v = single_def_value(self.loc, x.id)
+            if v is not None and not any(isinstance(y, (ast.Call, ast.Await, ast.Yield)) for y in ast.walk(v)):
+                return self.visit(copy.deepcopy(v))
+        self.ok = False
+        return x
+
+
+def _bind_args(fnode, call, skip_self=True) -> dict | None:
+    """parameter name -> argument expression of `call` (constant defaults filled in); None when not decidable"""
+    a = fnode.args
+    if a.vararg or a.kwarg or any(isinstance(x, ast.Starred) for x in call.args) or any(k.arg is None for k in call.keywords):
+        return None
+    pos = [x.arg for x in a.posonlyargs + a.args][1 if skip_self else 0:]
+    env = {}
+    if len(call.args) > len(pos):
+        return None
+    for p, v in zip(pos, call.args):
+        env[p] = v
+    names = pos + [x.arg for x in a.kwonlyargs]
+    for k in call.keywords:
+        if k.arg not in names or k.arg in env:
+            return None
+        env[k.arg] = k.value
+    dpos = dict(zip(reversed(pos), reversed(a.defaults)))
+    dkw = {x.arg: d for x, d in zip(a.kwonlyargs, a.kw_defaults) if d is not None}
+    for p in names:
+        if p not in env:
+            d = dpos.get(p, dkw.get(p))
+            if d is None or not isinstance(d, ast.Constant):
+                return None
+            env[p] = d
+    return env
+
+
+def context_manager_of(prog, fn, item, obj_name, call=None):
+    """`with K(args) as v` in fn, K a repository class with __exit__: what the object holds when the block is entered
+    and what its __exit__ does when the block raised, in the terms of fn.
+
+    -> None (not such a class) or a dict: cls, exit (the method), var (name bound by `as`, or None), var_is
+    ('object' | expression in fn's terms | None), obj (name the object goes by in the rewritten statements),
+    fields {field: expression of fn evaluated when the with statement is entered, or None when not decidable},
+    alias {field: name of fn the field merely refers to}, actions [(rewritten statement, original statement, guards
+    decided: None when every condition on it says "the block raised", else the text of the condition that does
+    not)], propagates (True / text of the return that may swallow the exception), enter_writes (rewritten statements
+    of the constructor / __enter__ that store into an object of fn), delegated [text of calls __exit__ makes on the
+    object or on an aliased object that are not followed]."""
+    import copy
+    e = call if call is not None else item.context_expr
+    if not isinstance(e, ast.Call):
+        return None
+    K = prog.resolve_class_expr(fn.module, e.func)
+    if K is None:
+        return None
+    ex = K.find_method('__exit__')
+    if ex is None:
+        return None
+    var = item.optional_vars.id if isinstance(item.optional_vars, ast.Name) else None
+    obj = obj_name
+    fields: dict = {}
+    alias: dict = {}
+    entered: set = set()
+    enter_writes = []
+    undecidable = set()
+
+    def run(meth, env):
+        selfname = meth.params[0] if meth.params else 'self'
+        for st in meth.node.body:
+            tgt = st.targets[0] if isinstance(st, ast.Assign) and len(st.targets) == 1 else \
+                st.target if isinstance(st, ast.AnnAssign) and st.value is not None else None
+            if isinstance(tgt, ast.Attribute) and isinstance(tgt.value, ast.Name) and tgt.value.id == selfname:
+                tr = _ToCaller(selfname, env, alias, obj, meth.node)
+                v = tr.visit(copy.deepcopy(st.value))
+                # a field read back (`self.b = self.a`) holds what that field holds
+                if isinstance(v, ast.Attribute) and isinstance(v.value, ast.Name) and v.value.id == obj and v.attr in fields:
+                    v = fields[v.attr]
+                alias.pop(tgt.attr, None)
+                if tr.ok and isinstance(v, ast.Name):
+                    alias[tgt.attr] = v.id
+                fields[tgt.attr] = v if tr.ok else None
+                continue
+            for x in ast.walk(st):
+                if isinstance(x, ast.Attribute) and isinstance(x.ctx, (ast.Store, ast.Del)) and \
+                        isinstance(x.value, ast.Name) and x.value.id == selfname:
+                    undecidable.add(x.attr)     # stored under a condition / in a loop / by unpacking
+            if isinstance(st, (ast.Assign, ast.AugAssign, ast.AnnAssign, ast.Delete, ast.Expr)):
+                tr = _ToCaller(selfname, env, alias, obj, meth.node)
+                st2 = tr.visit(copy.deepcopy(st))
+                if _self_mutations(st2):
+                    enter_writes.append(st2)
+
+    ini = K.find_method('__init__')
+    if ini is not None:
+        env = _bind_args(ini.node, e)
+        if env is None:
+            return dict(cls=K, what=f'{K.name}.__exit__', exit=ex, var=var, obj=obj, undecided=f'the arguments of {K.name}(…) cannot be matched to its constructor')
+        run(ini, env)
+    else:
+        names = list(K.annotated_fields())
+        defaults = K.class_assignments() if hasattr(K, 'class_assignments') else {}
+        if any(isinstance(a_, ast.Starred) for a_ in e.args) or any(k.arg is None for k in e.keywords) or len(e.args) > len(names):
+            return dict(cls=K, what=f'{K.name}.__exit__', exit=ex, var=var, obj=obj, undecided=f'the arguments of {K.name}(…) cannot be matched to its fields')
+        given = dict(zip(names, e.args))
+        given.update({k.arg: k.value for k in e.keywords})
+        for f in names:
+            v = given.get(f, defaults.get(f))
+            fields[f] = v
+            if isinstance(v, ast.Name):
+                alias[f] = v.id
+        post = K.find_method('__post_init__')
+        if post is not None:
+            run(post, {})
+    en = K.find_method('__enter__')
+    var_is = None
+    if en is not None:
+        before_enter = dict(fields)
+        run(en, {})
+        entered = {f for f in fields if fields[f] is not before_enter.get(f)}
+        rets = [r for r in walk_no_nested(en.node) if isinstance(r, ast.Return)]
+        if len(rets) == 1 and rets[0].value is not None:
+            tr = _ToCaller(en.params[0], {}, alias, obj, en.node)
+            rv = tr.visit(copy.deepcopy(rets[0].value))
+            if tr.ok and isinstance(rv, ast.Name) and rv.id == obj:
+                var_is = 'object'
+            elif tr.ok and isinstance(rv, ast.Attribute) and isinstance(rv.value, ast.Name) and rv.value.id == obj:
+                var_is = fields.get(rv.attr)
+            elif tr.ok:
+                var_is = rv
+    for f in undecidable:
+        fields[f] = None
+        alias.pop(f, None)
+    # a field given a value anywhere else in the class is not the value saved at the entry
+    for meth in K.methods.values():
+        if meth.name in ('__init__', '__post_init__', '__enter__'):
+            continue
+        for attr, st, how in self_attr_stores(meth):
+            if attr in fields:
+                fields[attr] = None
+                alias.pop(attr, None)
+
+    # what __exit__ does when the block raised
+    selfname = ex.params[0] if ex.params else 'self'
+    excs = set(ex.params[1:])
+    cc = Conditions(ex, prog)
+
+    def says_raised(t, pol) -> bool:
+        if isinstance(t, ast.UnaryOp) and isinstance(t.op, ast.Not):
+            return pol is not None and says_raised(t.operand, not pol)
+        if isinstance(t, ast.BoolOp) and isinstance(t.op, ast.And) and pol is True:
+            return all(says_raised(v, True) for v in t.values)
+        if isinstance(t, ast.BoolOp) and isinstance(t.op, ast.Or) and pol is False:
+            return all(says_raised(v, False) for v in t.values)
+        subj = t
+        if isinstance(t, ast.Compare) and len(t.ops) == 1 and isinstance(t.comparators[0], ast.Constant) and \
+                t.comparators[0].value is None and isinstance(t.ops[0], (ast.Is, ast.IsNot, ast.Eq, ast.NotEq)):
+            subj = t.left
+            if isinstance(t.ops[0], (ast.Is, ast.Eq)):
+                pol = (not pol) if pol is not None else None
+        elif isinstance(t, ast.Call) and call_name(t) == 'issubclass' and len(t.args) == 2 and \
+                norm(t.args[1]).split('.')[-1] in ('BaseException', 'Exception'):
+            subj = t.args[0]
+        while isinstance(subj, ast.Subscript):
+            subj = subj.value
+        return pol is True and isinstance(subj, ast.Name) and subj.id in excs
+
+    def guard_of(st):
+        for t, pol, _ in cc.controlling(st):
+            if not says_raised(t, pol):
+                return f'{"" if pol else "not "}({norm(t)[:60]})'
+        return None
+
+    actions, delegated = [], []
+    for st in walk_no_nested(ex.node):
+        if not isinstance(st, (ast.Assign, ast.AugAssign, ast.AnnAssign, ast.Delete, ast.Expr)):
+            continue
+        tr = _ToCaller(selfname, {}, alias, obj, ex.node)
+        st2 = tr.visit(copy.deepcopy(st))
+        ast.fix_missing_locations(st2)
+        if _self_mutations(st2):
+            actions.append((st2, st, guard_of(st)))
+            continue
+        for c in calls_in(st2):
+            b = c.func.value if isinstance(c.func, ast.Attribute) else None
+            if isinstance(b, ast.Name) and (b.id == obj or b.id in alias.values()):
+                delegated.append(norm(c)[:60])
+    propagates = True
+    for r in walk_no_nested(ex.node):
+        if isinstance(r, ast.Return) and r.value is not None and not (isinstance(r.value, ast.Constant) and not r.value.value):
+            # a truthy / computed result swallows the exception - unless that return is only taken when nothing was raised
+            if not any(says_raised(t, (not pol) if pol is not None else None) for t, pol, _ in cc.controlling(r)):
+                propagates = f'`{norm(r)[:50]}` (line {int(r.lineno)})'
+    return dict(cls=K, what=f'{K.name}.__exit__', exit=ex, var=var, var_is=var_is, obj=obj, fields=fields, entered=entered, alias=alias, actions=actions,
+                propagates=propagates, enter_writes=enter_writes, delegated=delegated, undecided=None)
+
+
+def generator_manager_of(prog, fn, item, obj_name):
+    """`with f(args) as v` in fn, f a repository function decorated with contextlib.contextmanager: the same
+    description as context_manager_of gives for a class.  The locals the generator binds once before its `yield` are
+    the fields of the object; the body of the catch-all, re-raising handler around the `yield` is what runs when the
+    block raised.  None when f is not such a function or touches no object of fn."""
+    import copy
+    e = item.context_expr
+    if not isinstance(e, ast.Call):
+        return None
+    gf = resolve_call(prog, fn, e)
+    if gf is None or not any(d.split('.')[-1] in ('contextmanager', 'contextmanager()') for d in gf.decorators()):
+        return None
+    var = item.optional_vars.id if isinstance(item.optional_vars, ast.Name) else None
+    obj = obj_name
+    what = f'{gf.qualname} (a generator-based context manager)'
+    is_method = gf.cls is not None and gf.params[:1] in (['self'], ['cls']) and not any('staticmethod' in d for d in gf.decorators())
+    env = _bind_args(gf.node, e, skip_self=is_method)
+    if env is None:
+        return dict(cls=None, what=what, exit=gf, var=var, obj=obj, undecided=f'the arguments of {gf.name}(…) cannot be matched to its parameters')
+    if is_method:
+        recv = e.func.value if isinstance(e.func, ast.Attribute) else None
+        if not isinstance(recv, ast.Name):
+            return dict(cls=None, what=what, exit=gf, var=var, obj=obj, undecided=f'the receiver of {gf.name}(…) is not a plain name')
+        env[gf.params[0]] = ast.Name(id=recv.id, ctx=ast.Load())
+    ys = [y for y in walk_no_nested(gf.node) if isinstance(y, (ast.Yield, ast.YieldFrom))]
+    params = set(gf.params)
+    saved = {}
+    for x in walk_no_nested(gf.node):
+        if isinstance(x, ast.Name) and isinstance(x.ctx, ast.Store) and x.id not in params:
+            saved[x.id] = single_def_value(gf.node, x.id)
+
+    def to_caller(node):
+        tr = _ToCaller(None, env, {}, obj, None, saved=saved)
+        out = tr.visit(copy.deepcopy(node))
+        ast.fix_missing_locations(out)
+        return out, tr.ok
+
+    writes = []
+    for st in walk_no_nested(gf.node):
+        if isinstance(st, (ast.Assign, ast.AugAssign, ast.AnnAssign, ast.Delete, ast.Expr)):
+            st2, _ = to_caller(st)
+            if _self_mutations(st2):
+                writes.append((st2, st))
+    if not writes:
+        return None       # holds no state of fn's object: exceptions pass through it unchanged
+    if len(ys) != 1 or isinstance(ys[0], ast.YieldFrom):
+        return dict(cls=None, what=what, exit=gf, var=var, obj=obj, undecided=f'{gf.name} does not have exactly one plain `yield`')
+    ystmt = stmt_of(ys[0])
+    tries = [a for a in ancestors(ystmt) if isinstance(a, ast.Try)]
+    other = [a for a in ancestors(ystmt) if isinstance(a, (ast.For, ast.AsyncFor, ast.While, ast.If, ast.With, ast.AsyncWith, ast.Match))]
+    handler = None
+    if len(tries) == 1 and not other and any(ystmt is b for b in tries[0].body) and not tries[0].finalbody and not tries[0].orelse \
+            and len(tries[0].handlers) == 1:
+        h = tries[0].handlers[0]
+        if h.body and _catch_all_reraising_handler(h.body[0]) is h:
+            handler = h
+    if handler is None:
+        return dict(cls=None, what=what, exit=gf, var=var, obj=obj,
+                    undecided=f'{gf.name} changes the store, but its `yield` is not the direct body of a try with one catch-all, '
+                              're-raising handler (and no finally / else): what happens when the block raises is not followed')
+    fields = {}
+    before = []
+    top = tries[0]
+    seq = []
+    for st in gf.node.body:
+        if st is top:
+            seq += [b for b in top.body[:next(i for i, b in enumerate(top.body) if b is ystmt)]]
+            break
+        seq.append(st)
+    else:
+        return dict(cls=None, what=what, exit=gf, var=var, obj=obj, undecided=f'the try around the `yield` of {gf.name} is nested')
+    for st in seq:
+        tgt = st.targets[0] if isinstance(st, ast.Assign) and len(st.targets) == 1 else \
+            st.target if isinstance(st, ast.AnnAssign) and st.value is not None else None
+        if isinstance(tgt, ast.Name) and saved.get(tgt.id) is st.value:
+            v, ok = to_caller(st.value)
+            if isinstance(v, ast.Attribute) and isinstance(v.value, ast.Name) and v.value.id == obj and v.attr in fields:
+                v = fields[v.attr]
+            fields[tgt.id] = v if ok else None
+    for n_ in saved:
+        fields.setdefault(n_, None)
+    inside = {id(x) for st in seq for x in ast.walk(st)} | {id(x) for x in ast.walk(handler)}
+    enter_writes = [st2 for st2, st in writes if id(st) in {id(x) for s_ in seq for x in ast.walk(s_)}]
+    stray = [st for st2, st in writes if id(st) not in inside]
+    if stray:
+        return dict(cls=None, what=what, exit=gf, var=var, obj=obj,
+                    undecided=f'{gf.name} also changes the store after the block ended normally (`{norm(stray[0])[:50]}`): not followed')
+    actions, delegated = [], []
+    for st in handler.body:
+        for x in [st] + list(walk_no_nested(st)):
+            if not isinstance(x, (ast.Assign, ast.AugAssign, ast.AnnAssign, ast.Delete, ast.Expr)):
+                continue
+            st2, _ = to_caller(x)
+            if _self_mutations(st2):
+                g_ = [f'{"" if pol else "not "}({norm(t)[:60]})' for t, pol, _ in guards_of(x, stop=handler)]
+                actions.append((st2, x, g_[0] if g_ else None))
+            else:
+                for c in calls_in(x):
+                    b = c.func.value if isinstance(c.func, ast.Attribute) else None
+                    if isinstance(b, ast.Name) and isinstance(env.get(b.id), ast.Name) and resolve_call(prog, gf, c) is not None:
+                        delegated.append(norm(c)[:60])
+    var_is = None
+    if ys[0].value is not None:
+        rv, ok = to_caller(ys[0].value)
+        if ok and isinstance(rv, ast.Attribute) and isinstance(rv.value, ast.Name) and rv.value.id == obj:
+            var_is = fields.get(rv.attr)
+        elif ok:
+            var_is = rv
+    return dict(cls=None, what=what, exit=gf, var=var, var_is=var_is, obj=obj, fields=fields, alias={}, actions=actions,
+                propagates=True, enter_writes=enter_writes, delegated=delegated, undecided=None)
+
+
+def forward_edges(g, init, transfer, join, edge_ok=None, edge_transfer=None):
+    """CFG.forward with a transfer function per edge as well: `edge_transfer(a, b, label, state)` is applied to the
+    state an edge carries (an exception that leaves a `with` block runs the context manager's __exit__ on the way)"""
+    ins = {g.entry: init}
+    outs = {}
+    work = [g.entry]
+    while work:
+        n = work.pop()
+        st = ins[n]
+        out_n = transfer(g.nodes[n], st)
+        outs[n] = out_n
+        for b, lab in g.succ[n]:
+            if edge_ok is not None and not edge_ok(n, b, lab):
+                continue
+            val = st if lab == 'e' and g.nodes[n].kind not in ('dispatch', 'finally', 'join') else out_n
+            if edge_transfer is not None:
+                val = edge_transfer(n, b, lab, val)
+            if b not in ins:
+                ins[b] = val
+                work.append(b)
+            else:
+                j = join(ins[b], val)
+                if j != ins[b]:
+                    ins[b] = j
+                    work.append(b)
+    return ins, outs
+
+
+# ------------------------------------------------------------------------------------------------------------------
 
 def rule_add(ctx, fn=None, as_host=False):
     """fn: the function whose CFG carries the mutations (add itself, or - when add was split - the method it hands
@@ -318,6 +696,66 @@ def rule_add(ctx, fn=None, as_host=False):
 
     def normal(a, b, lab):
         return lab != 'e'
+
+    # context managers of repository classes guarding a block: an exception that leaves the block runs __exit__
+    cms = []
+    for n in g.nodes:
+        if n.kind != 'with':
+            continue
+        for k, it in enumerate(n.stmt.items):
+            v_ = it.optional_vars.id if isinstance(it.optional_vars, ast.Name) else None
+            made_at = None
+            ce = it.context_expr
+            if isinstance(ce, ast.Name) and isinstance(single_def_value(fn.node, ce.id), ast.Call):
+                # `p = K(self); ...; with p:` - the object is made where the name is bound, entered here
+                made = single_def_value(fn.node, ce.id)
+                cm = context_manager_of(prog, fn, it, ce.id, call=made)
+                made_at = next(iter(g.nodes_of(stmt_of(made))), None) if cm is not None else None
+            else:
+                cm = context_manager_of(prog, fn, it, f'_cm{int(n.line)}_{k}') or generator_manager_of(prog, fn, it, f'_cm{int(n.line)}_{k}')
+            if cm is None:
+                # an object the rule cannot open whose __exit__ writes into another object: it may well be the rollback
+                try:
+                    K_ = expr_class(prog, fn, ce)
+                except Exception:
+                    K_ = None
+                ex_ = K_.find_method('__exit__') if K_ is not None else None
+                if ex_ is not None and any(isinstance(x, ast.Attribute) and isinstance(x.value, ast.Attribute)
+                                           and dotted_name(x.value.value) == 'self' and
+                                           (isinstance(x.ctx, (ast.Store, ast.Del)) or x.attr in MUTATING_METHODS)
+                                           for x in ast.walk(ex_.node)):
+                    ctx.undecided('C10-R1', fn, f'with {norm(ce)[:60]}',
+                                  f'{K_.name}.__exit__ writes into another object, but how the object was made is not followed: '
+                                  'whether it rolls the block back is not decided')
+                continue
+            if cm.get('undecided'):
+                ctx.undecided('C10-R1', fn, f'with {norm(it.context_expr)[:60]}', cm['undecided'])
+            cm['made_at'] = made_at
+            cm['head'] = n.id
+            cm['body'] = {x.id for x in g.nodes if x.stmt is not None and x.stmt is not n.stmt
+                          and any(a is n.stmt for a in ancestors(x.stmt))}
+            cm['names'] = {cm['obj']} | ({v_} if v_ and cm['var_is'] == 'object' else set())
+            cm['killed'] = set()
+            cms.append(cm)
+    cm_origin: dict[int, int] = {}     # id(expression held by a field of a context manager) -> node of the with head
+
+    def cm_field(name, attr):
+        """the expression of fn that field `attr` of the context-manager object `name` was given at the with head"""
+        for cm in cms:
+            if name in cm['names']:
+                d = cm['fields'].get(attr)
+                if d is not None:
+                    cm_origin[id(d)] = cm['head'] if cm.get('made_at') is None or attr in cm.get('entered', ()) else cm['made_at']
+                return d, True
+        return None, False
+
+    def cm_value(name):
+        """the expression `with K(..) as name` binds when __enter__ returns a field of the object"""
+        for cm in cms:
+            if name == cm['var'] and cm['var_is'] not in (None, 'object'):
+                cm_origin[id(cm['var_is'])] = cm['head']
+                return cm['var_is']
+        return None
 
     # bookkeeping helpers: methods of the class whose closure touches no file; their stores to self are add's own
     def bookkeeping(callee):
@@ -399,6 +837,10 @@ def rule_add(ctx, fn=None, as_host=False):
         from ..astutil import tuple_def_component
         if depth > 4:
             return None
+        if isinstance(v, ast.Name) and cm_value(v.id) is not None:
+            return cm_value(v.id)
+        if isinstance(v, ast.Attribute) and isinstance(v.value, ast.Name) and cm_field(v.value.id, v.attr)[1]:
+            return cm_field(v.value.id, v.attr)[0]
         if isinstance(v, ast.Name):
             d = single_def_value(fn.node, v.id)
             if d is None:
@@ -440,7 +882,7 @@ def rule_add(ctx, fn=None, as_host=False):
         d = component(ast.Name(id=v) if isinstance(v, str) else v)
         if d is None or not (isinstance(d, ast.Attribute) and d.attr == attr and dotted_name(d.value) == 'self'):
             return None, f'{name} is not a copy of self.{attr} saved before the store'
-        dnode = g.nodes_of(stmt_of(d))
+        dnode = [cm_origin[id(d)]] if id(d) in cm_origin else g.nodes_of(stmt_of(d))
         for mid, ms in content_muts.items():
             if any(a == attr for a, _, _ in ms):
                 if not dnode or dnode[0] not in dom.get(mid, set()):
@@ -520,6 +962,71 @@ def rule_add(ctx, fn=None, as_host=False):
             ctx.ob('C10-R1', fn, f'restore of self.{attr} in handler: {norm(g.nodes[nid].stmt)}',
                    ok, why, line=g.nodes[nid].line)
 
+    # what the __exit__ of a context manager puts back when an exception leaves the block it guards
+    def canon_key(text):
+        try:
+            e_ = ast.parse(text, mode='eval').body
+        except SyntaxError:
+            return text
+        return norm(component(e_) or e_)
+
+    for cm in cms:
+        what, ex = cm['what'], cm['exit']
+        # a field the function itself stores into is not the value saved at the entry
+        for x in walk_no_nested(fn.node):
+            if isinstance(x, ast.Attribute) and isinstance(x.ctx, (ast.Store, ast.Del)) and isinstance(x.value, ast.Name) \
+                    and x.value.id in cm['names']:
+                cm['fields'][x.attr] = None
+        if cm['enter_writes']:
+            ctx.undecided('C10-R1', fn, f'with {what}',
+                          f'entering the block already changes the store (`{norm(cm["enter_writes"][0])[:60]}` in the constructor / '
+                          '__enter__): not followed')
+        if not cm['actions']:
+            continue      # a context manager that restores nothing (a lock, a timer): exceptions pass through it unchanged
+        if cm['propagates'] is not True:
+            ctx.undecided('C10-R1', ex, what, f'{cm["propagates"]} may swallow the exception that left the block: '
+                          'whether the rejection still reaches the caller is not decided')
+        if cm['delegated']:
+            ctx.undecided('C10-R1', ex, what, f'the rollback is partly delegated to `{cm["delegated"][0]}`, which is not followed')
+        for st2, st0, guard in cm['actions']:
+            for attr, how, key in _self_mutations(st2):
+                if guard is not None:
+                    ctx.undecided('C10-R1', ex, f'{what}: {norm(st0)[:60]}',
+                                  f'runs only under the condition {guard}, which is not "the block raised": whether every '
+                                  'rejection is rolled back is not decided')
+                if how == 'assign':
+                    d, why = saved_copy_of(st2.value, attr)
+                    ok = d is not None
+                elif how.startswith('assign@') and isinstance(st2.value, (ast.Tuple, ast.List)) and \
+                        int(how.split('@')[1]) < len(st2.value.elts):
+                    d, why = saved_copy_of(st2.value.elts[int(how.split('@')[1])], attr)
+                    ok = d is not None
+                elif how in ('call-pop', 'elem-del', 'call-discard', 'call-remove'):
+                    ins_keys = {k for mid, ms in content_muts.items() for a, h2, k in ms if a == attr and h2.startswith('elem-')}
+                    ok = key in ins_keys or not ins_keys or None in ins_keys or \
+                        (key is not None and canon_key(key) in {canon_key(k) for k in ins_keys})
+                    why = f'inserted key {key} removed again' if ok else f'removes key {key}, but the insertion used {sorted(ins_keys)}'
+                else:
+                    ok, why = False, f'unrecognised restore form {how}'
+                why = why.replace(cm['obj'] + '.', f'{ex.cls.name if cm["cls"] is not None else ex.name}.')
+                if ok:
+                    cm['killed'].add(attr)
+                ctx.ob('C10-R1', ex, f'restore of self.{attr} in {what} when the block raised: {norm(st0)[:70]}',
+                       ok, why + f' (the object is made at line {int(g.nodes[cm["head"]].line)} of {fn.name})', line=st0.lineno)
+
+    def leaves_with(a, b, lab) -> set:
+        """attributes put back by the context managers whose block the exceptional edge a -> b leaves"""
+        out = set()
+        if lab == 'e':
+            for cm in cms:
+                if a in cm['body'] and b not in cm['body']:
+                    out |= cm['killed']
+        return out
+
+    def edge_transfer(a, b, lab, st):
+        k = leaves_with(a, b, lab)
+        return frozenset(x for x in st if x[0] not in k) if k else st
+
     def edge_ok(a, b, lab):
         if lab != 'e':
             return True
@@ -533,7 +1040,7 @@ def rule_add(ctx, fn=None, as_host=False):
             st = st | frozenset((a, node.id) for a, _, _ in content_muts[node.id])
         return st
 
-    ins, _ = g.forward(frozenset(), transfer, lambda a, b: a | b, edge_ok=edge_ok)
+    ins, _ = forward_edges(g, frozenset(), transfer, lambda a, b: a | b, edge_ok=edge_ok, edge_transfer=edge_transfer)
     dirty = ins.get(g.raise_exit, frozenset())
     for nid, ms in sorted(content_muts.items()):
         for attr, how, key in ms:
@@ -542,7 +1049,8 @@ def rule_add(ctx, fn=None, as_host=False):
             if bad:
                 kill = {r for r, attrs in valid_restores.items() if attr in attrs}
                 p = g.find_path(nid, g.raise_exit,
-                                edge_ok=lambda a, b, lab: edge_ok(a, b, lab) and b not in kill)
+                                edge_ok=lambda a, b, lab: edge_ok(a, b, lab) and b not in kill
+                                and attr not in leaves_with(a, b, lab))
                 if p:
                     path = [f'L{int(g.nodes[x].line)}: {g.nodes[x].text()[:90]}' +
                             (f'   <-- rejection: {rejections[x]}' if x in rejections else '')
@@ -718,11 +1226,22 @@ def _const_strings(prog, fn, e, depth=0) -> list[str]:
                 owner = expr_class(prog, fn, x.value)
             except Exception:
                 owner = None
+            if owner is None:
+                owner = prog.resolve_class_expr(fn.module, x.value)     # `K.NAME`
             meth = owner.find_method(x.attr) if owner is not None else None
             if meth is not None and meth is not fn:
                 for r in walk_no_nested(meth.node):
                     if isinstance(r, ast.Return) and r.value is not None:
                         out += _const_strings(prog, meth, r.value, depth + 1)
+            elif owner is not None and meth is None:
+                # a constant of the class body (`FILE_NAME = 'metadata.json'`, read as self. / cls. / K.FILE_NAME)
+                for c_ in owner.mro():
+                    v = c_.class_assignments().get(x.attr)
+                    if v is not None:
+                        ctxfn = next(iter(c_.methods.values()), None)
+                        out += _const_strings(prog, ctxfn, v, depth + 1) if ctxfn is not None else \
+                            [k.value for k in ast.walk(v) if isinstance(k, ast.Constant) and isinstance(k.value, str)]
+                        break
         elif isinstance(x, ast.Name) and depth < 3:
             v = single_def_value(fn.node, x.id)
             if v is not None:
